@@ -377,39 +377,67 @@ func TestPropChunking(t *testing.T) {
 func TestPropDamage(t *testing.T) {
 	rapid.Check(t, func(t *rapid.T) {
 		maxLen := maxLens().Draw(t, "maxLen")
-		frames := genFrames(t, maxLen, 2)
+		// delimiters that reach the reader in one read with a frame's first bytes
+		// take room in the buffer: a damage run can put up to three more of them in
+		// front of an intact frame, hence the spare bytes (assumption, see DESIGN)
+		frames := genFrames(t, maxLen, 5)
 		stream, spans, err := encodeStream(frames, maxLen)
 		if err != nil {
 			t.Fatalf("Write: %v", err)
 		}
+		// one damage event: a run of bytes is overwritten, lost, or inserted. Runs of
+		// two or three reach across the two delimiters between frames (frames get
+		// glued together); inserted noise may be longer than the read buffer.
 		d := rapid.IntRange(0, len(stream)-1).Draw(t, "damagePos")
 		kind := rapid.SampledFrom([]string{"toZero", "toNonZero", "delete", "insertZero", "insertNonZero"}).Draw(t, "damageKind")
+		run := rapid.SampledFrom([]int{1, 1, 1, 2, 3}).Draw(t, "damageRun")
+		if kind == "delete" {
+			run = rapid.SampledFrom([]int{1, 1, 2, 3, 8}).Draw(t, "deleteRun")
+		}
+		if kind == "insertNonZero" {
+			run = rapid.SampledFrom([]int{1, 1, 2, 5, maxLen / 2, maxLen + 10}).Draw(t, "noiseRun")
+		}
+		if kind != "insertZero" && kind != "insertNonZero" && d+run > len(stream) {
+			run = len(stream) - d
+		}
 		var dmg []byte
 		shift := 0
+		origLen := run // bytes of the original stream covered by the damage
 		switch kind {
 		case "toZero":
 			dmg = append([]byte{}, stream...)
-			dmg[d] = 0
+			for k := 0; k < run; k++ {
+				dmg[d+k] = 0
+			}
 		case "toNonZero":
 			dmg = append([]byte{}, stream...)
-			nb := rapid.ByteRange(1, 255).Draw(t, "newByte")
-			if nb == dmg[d] {
-				nb ^= 0x55
-				if nb == 0 {
-					nb = 1
+			for k := 0; k < run; k++ {
+				nb := rapid.ByteRange(1, 255).Draw(t, "newByte")
+				if nb == dmg[d+k] {
+					nb ^= 0x55
+					if nb == 0 {
+						nb = 1
+					}
+				}
+				dmg[d+k] = nb
+			}
+		case "delete":
+			dmg = append(append([]byte{}, stream[:d]...), stream[d+run:]...)
+			shift = -run
+		case "insertZero", "insertNonZero":
+			ins := make([]byte, run)
+			if kind == "insertNonZero" {
+				fill := rapid.ByteRange(1, 255).Draw(t, "insByte")
+				for k := range ins {
+					ins[k] = fill
+					if k%7 == 3 {
+						ins[k] = byte(1 + (int(fill)+k)%255)
+					}
 				}
 			}
-			dmg[d] = nb
-		case "delete":
-			dmg = append(append([]byte{}, stream[:d]...), stream[d+1:]...)
-			shift = -1
-		case "insertZero", "insertNonZero":
-			b := byte(0)
-			if kind == "insertNonZero" {
-				b = rapid.ByteRange(1, 255).Draw(t, "insByte")
-			}
-			dmg = append(append(append([]byte{}, stream[:d]...), b), stream[d:]...)
-			shift = 1
+			dmg = append(append(append([]byte{}, stream[:d]...), ins...), stream[d:]...)
+			shift = run
+			origLen = 0
 		}
 		cuts := genCuts(t, dmg)
 		evs, err := readAll(dmg, cuts, maxLen)
@@ -433,7 +461,7 @@ func TestPropDamage(t *testing.T) {
 		}
 		if z >= 0 {
 			for i, s := range spans {
-				if s[0] >= d && s[0]+shift > z {
+				if s[0] >= d+origLen && s[0]+shift > z {
 					after = append(after, frames[i])
 				}
 			}
@@ -463,7 +491,14 @@ func TestPropDamage(t *testing.T) {
 			}
 		}
 		nt := len(frames) >= 2 && len(after) >= 1
-		stats.Case(nt, stats.Digest(fmt.Sprintf("%x|%v|%d|%s", dmg, cuts, d, kind)), "damage:"+kind)
+		dcls := []string{"damage:" + kind}
+		if run >= 2 {
+			dcls = append(dcls, "damageRun>=2")
+		}
+		if run > maxLen {
+			dcls = append(dcls, "noiseLongerThanBuffer")
+		}
+		stats.Case(nt, stats.Digest(fmt.Sprintf("%x|%v|%d|%s", dmg, cuts, d, kind)), dcls...)
 		if nt && stats.WantSample() {
 			stats.Sample(map[string]any{"frames": hexs(frames), "damage": kind, "at": d, "frames_before": len(before), "frames_after_delimiter": len(after), "cuts": len(cuts)})
 		}
